@@ -42,22 +42,22 @@ PROPS = {
              'roll-over syncs the old file first (ROLL1); nothing is unlinked unless everything written so far has been flushed and fsynced (GC2).',
              'OS / disk semantics of fdatasync; OnDelay timing.',
              'MIR must-pass-through with constant specialisation (A-CONST); finite-table extraction', 'DESIGN §5.5, §5.2 GC2, §5.9 C03'),
-    'C04': P('removing records always moves start_position past the truncation point (PAST4); replay keeps a queue only at exactly the recorded position (RP2); no in-memory update after the GC pass (GC10); an unlogged in-memory update is impossible (LOG1); GC position pass exists, records next_position of exactly the empty queues, durably, pinned (GC1, GC2w, GC3); an append below the next position cannot reach a push or a log site (PAST1, PAST2); the logged/applied position is the supplied one or the queue\'s next position (PAST3); replay applies the entry\'s own position (RP1). the value stored into start_position by a truncation is the truncation point + 1 on every path (PAST4 affine form); a queue rebuilt for a recorded position has every integer field next_position() reads initialised from that position (MQ3); the Truncate / DeleteQueue replay arms always apply their operation (RP5).',
+    'C04': P('removing records always moves start_position past the truncation point (PAST4); replay keeps a queue only at exactly the recorded position (RP2); no in-memory update after the GC pass (GC10); an unlogged in-memory update is impossible (LOG1); GC position pass exists, records next_position of exactly the empty queues, durably, pinned (GC1, GC2w, GC3); an append below the next position cannot reach a push or a log site (PAST1, PAST2); the logged/applied position is the supplied one or the queue\'s next position (PAST3); replay applies the entry\'s own position (RP1). the value stored into start_position by a truncation is the truncation point + 1 on every path (PAST4 affine form); a queue rebuilt for a recorded position has every integer field next_position() reads initialised from that position (MQ3); the Truncate / DeleteQueue replay arms always apply their operation (RP5). the position arithmetic of a queue where readable as affine forms: next = last + 1 | start, last = next - 1, the pushed meta carries the target position and the buffer length before the payload (MQ4).',
              'the arithmetic of next_position / truncate_head.',
              'MIR guard-dominates-use and flow rules', 'DESIGN §5.8 PAST/RP, §5.2'),
-    'C06': P('no owner of file handles is live across the GC pass in its caller (GC11); minted file numbers are tracked (GC12); file number replaced together with the handle at roll-over (ROLL2); tracker removal is guarded (GC4), unlink pairs with removal (GC5), trigger and action agree (GC6), truncate/delete_queue/open reach the GC pass on every success path (GC7), handles share one count (GC8), no new long-lived holder or leak primitive (GC9), size() and set_len use the same FILE_NUM_BYTES (DU1). a re-used next file is sized to full length (SZ2).',
+    'C06': P('no owner of file handles is live across the GC pass in its caller (GC11); minted file numbers are tracked (GC12); file number replaced together with the handle at roll-over (ROLL2); tracker removal is guarded (GC4), unlink pairs with removal (GC5), trigger and action agree (GC6), truncate/delete_queue/open reach the GC pass on every success path (GC7), handles share one count (GC8), no new long-lived holder or leak primitive (GC9), size() and set_len use the same FILE_NUM_BYTES (DU1). a re-used next file is sized to full length (SZ2). a failed creation does not leave a phantom file in the tracker (GC13).',
              'which file a record is attributed to at every alignment (DESIGN §6.4); the numeric equality of disk_used_bytes.',
              'MIR must-pass-through, sibling agreement, type/ADT inventories', 'DESIGN §5.2, §5.9 C06'),
     'C07': P('every encoder input / header field / frame payload reaches the output (CD8); strict `>` in the frame-fits and file-full tests (CD9); `remaining - HEADER_LEN` only on the `>=` edge (CD2b); the frame loop progresses and ends exactly when nothing remains (WR1); a returned frame was consumed entirely (FR5b); an exceeding write only through the roll-over (ROLL3); reader position only moves under a successful read (NB1); constants are mutually consistent (CD1); writer and reader use the same `remaining < HEADER_LEN` predicate (CD2); header / entry / batch layouts agree field by field (CD3, CD5, CD6); frame-type and record-type tables compose to the identity (CD4); narrowing casts in encoders are guarded (CD7). the writer resumes exactly at the reader\'s cursor (LOG5 cursor-exact); the end of the log is Ok(false) in every reader state (REC8).',
              'the round-trip itself at all (offset, length) pairs; the split arithmetic in write_record.',
              'const evaluation by rustc + MIR predicate / table / layout extraction and comparison', 'DESIGN §5.8 CODEC'),
-    'C08': P('a block quarantine is always reported (FR8); a returned frame was consumed entirely (FR5b); bounds check and slice read the same cursor value (TAINT2); fixed-size header cuts are length-guarded (TAINT3); NotAvailable only for an all-zero header (FR3); no frame returned without a passed CRC over type+payload (FR1, FR2); header validity (FR3); entries only First..Last (REC1-5); batch views only after validation (NU1, NU2), consumers stop at the first error (MI2); no slice/allocation sized by an unchecked decoded length (TAINT1). the ring buffer hands out exactly the window [start, end) in each of its three cases (RB1).',
+    'C08': P('a block quarantine is always reported (FR8); a returned frame was consumed entirely (FR5b); bounds check and slice read the same cursor value (TAINT2); fixed-size header cuts are length-guarded (TAINT3); NotAvailable only for an all-zero header (FR3); no frame returned without a passed CRC over type+payload (FR1, FR2); header validity (FR3); entries only First..Last (REC1-5); batch views only after validation (NU1, NU2), consumers stop at the first error (MI2); no slice/allocation sized by an unchecked decoded length (TAINT1). the ring buffer hands out exactly the window [start, end) in each of its three cases (RB1). a record is cut at its own start offset and at the start offset of the next meta (RB2); a header that does not decode quarantines its block (FR3); the decode table accepts only what the encode table produces (CD4).',
              'CRC-32 collision bound; that surviving records equal appended ones.',
              'MIR guard-dominates-exit, sibling agreement, taint-to-sink with dominating guard', 'DESIGN §5.3, §5.4 TAINT1, §5.8 NU'),
     'C09': P('replay keeps an existing queue only if empty and exactly at the recorded position and re-aligns only unknown queues, which is what makes a lost entry harmless (RP2, RP3); a CRC failure advances past the frame without quarantining the block and surfaces as Corruption (FR6); Corruption makes the replay loop continue (OP2); the record reader forgets the partial entry (REC2).',
              'that replay\'s gap tolerance recovers every record that was not hit.',
              'MIR no-store-on-path, must-loop reachability', 'DESIGN §5.3 FR6, §5.4 OP2'),
-    'C10': P('bounds check and slice read the same cursor value (TAINT2); fixed-size header cuts are length-guarded (TAINT3); byte-offset slicing of a directory entry name only after the ASCII prefix test (FS5); termination clause: every open-coded loop of the recovery-read set and read accessors has a progress witness, iterator-driven loops are over std collections, no recursion (LP1); reader progress before every Corruption / frame (FR5), quarantined or exhausted blocks are left (FR7); the crate iterator progresses and its consumers stop at the first error (MI1, MI2); no error path carrying an I/O error re-enters a loop (ERR2); decoded lengths are guarded before use (TAINT1). the end of the log never answers Corruption or an error, in any reader state (REC8: replay would spin); the write offset is never the subtrahend of an unguarded subtraction (ROLL5).',
+    'C10': P('bounds check and slice read the same cursor value (TAINT2); fixed-size header cuts are length-guarded (TAINT3); byte-offset slicing of a directory entry name only after the ASCII prefix test (FS5); termination clause: every open-coded loop of the recovery-read set and read accessors has a progress witness, iterator-driven loops are over std collections, no recursion (LP1); reader progress before every Corruption / frame (FR5), quarantined or exhausted blocks are left (FR7); the crate iterator progresses and its consumers stop at the first error (MI1, MI2); no error path carrying an I/O error re-enters a loop (ERR2); decoded lengths are guarded before use (TAINT1). the end of the log never answers Corruption or an error, in any reader state (REC8: replay would spin); the write offset is never the subtrahend of an unguarded subtraction (ROLL5). no byte-offset cut of text on the recovery / read path (TAINT4); every header peek follows the block-room check (FR7); io::Error conversions stay I/O errors (ERR6).',
              'general panic-freedom (value ranges of indices/arithmetic), allocation bounds beyond TAINT1.',
              'natural-loop inventory with progress witnesses; dominance; taint-to-sink', 'DESIGN §5.4 LP1/MI/TAINT1, §5.3 FR5/FR7'),
     'C11': P('every possibly-I/O-bearing result on the recovery path is propagated by `?`, returned, or matched with every io-carrying variant flowing to an Err exit (ERR1); no such error path reaches a loop back-edge (ERR2); the writer is only built after Ok(None) (OP3).',
@@ -75,10 +75,10 @@ PROPS = {
     'C15': P('every byte count handed to the one write primitive flows to the frame writer\'s result (BY1), every frame count to the entry count (BY2), every entry and GC count to the wal_bytes_written field of the outcome (BY3); a constant 0 is returned only where no write can have happened (BY4); single choke point using write_all (W1); offset bookkeeping pairs with writes (BY6). no effect site reaches a rejecting exit, so no bytes are written and reported nowhere (QX1, QX3).',
              'that the flows add up to EQUALITY (no double counting / scaling).',
              'must-flow (def-use closure) to field-sensitive sinks; no-reach', 'DESIGN §5.7 BYTES'),
-    'C16': P('meta and payload bytes are stored together and dropped together (MA5); size() and capacity() are built from corresponding terms (MA1 term sets); used/allocated are built from paired len/capacity terms of the same containers (MA1), the used side contains no capacity term and includes payload and key lengths (MA2), emptying releases the ring buffer (MA3), the pair is mapped to the right fields (MA4). every move of start_position in truncate_head goes with the eviction of the metas in front of it (MA5 every-move-evicts).',
+    'C16': P('meta and payload bytes are stored together and dropped together (MA5); size() and capacity() are built from corresponding terms (MA1 term sets); used/allocated are built from paired len/capacity terms of the same containers (MA1), the used side contains no capacity term and includes payload and key lengths (MA2), emptying releases the ring buffer (MA3), the pair is mapped to the right fields (MA4). every move of start_position in truncate_head goes with the eviction of the metas in front of it (MA5 every-move-evicts). the payload buffer reports the len / capacity of its container, nothing added (MA6).',
              'the numeric slack ("small constant per record"), allocator behaviour.',
              'flow pairing over the accounting functions', 'DESIGN §5.8 MA'),
-    'C17': P('byte-offset slicing of a candidate name only after the prefix test (FS5); every path handed to a creating / opening / removing / scanning primitive is built by the one name builder from a tracked number, or is the directory itself for read-only open/scan (FS1); the name template and the parser agree (FS2); the scan admits regular files with parsed names only (FS3); the parser gates length, prefix and ASCII digits (FS4); only popped tracked files are unlinked (GC5); fresh numbers are minted only by the tracker (GC8). a tracker started from scratch is always followed by the exclusive creation of its file (FS8).',
+    'C17': P('byte-offset slicing of a candidate name only after the prefix test (FS5); every path handed to a creating / opening / removing / scanning primitive is built by the one name builder from a tracked number, or is the directory itself for read-only open/scan (FS1); the name template and the parser agree (FS2); the scan admits regular files with parsed names only (FS3); the parser gates length, prefix and ASCII digits (FS4); only popped tracked files are unlinked (GC5); fresh numbers are minted only by the tracker (GC8). a tracker started from scratch is always followed by the exclusive creation of its file (FS8). a file number minted for a new file is un-tracked again when the creation of the file fails (GC13).',
              'std\'s DirEntry::file_type / symlink semantics (trusted).',
              'who-may-call + provenance over all path-taking std::fs call sites; AST format-template vs parser agreement', 'DESIGN §5.6 FS'),
     'C18': P('the GC triggered by one queue records, durably and pinned, the positions of exactly the idle empty queues and happens after the call\'s own update (GC1, GC2w, GC3, GC10); a torn or damaged entry of one queue is never spliced into another queue\'s entry (REC2, REC4, FR8); every memory operation and every entry in a call is keyed by the call\'s own queue argument (ISO1), in replay by the entry\'s own queue (ISO2); mutators access the map by key only, whole-map primitives are confined (ISO3); GC touches only empty queues (ISO4); file lifetime is a shared count (GC8); every entry kind carries its queue (CD5).',
